@@ -244,7 +244,7 @@ pub fn run_histories(ctx: &mut Ctx, oracle: fn(&mut Ctx, &MuxCase) -> Check) {
     ctx.extra.insert("enum_max_ops".into(), serde_json::json!(maxlen));
     ctx.extra.insert("enum_histories".into(), serde_json::json!(idx));
     ctx.stage("random");
-    let cases = ctx.pick(24_000u32, 600_000u32) / ctx.nshards;
+    let cases = ctx.pick(400_000u32, 3_000_000u32) / ctx.nshards;
     let maxops = ctx.pick(60usize, 400usize);
     ctx.run_prop(mux::mux_history(5, maxops, 0.06), cases, |ctx, c| oracle(ctx, c));
 }
